@@ -76,7 +76,13 @@ Definition expect (before : blist) (ds : list delta) (after : blist) : bool :=
 
 Definition check_step (env : tenv) (st : tstate) (o : top) (before after : blist) (e : option err) : bool :=
   match e with
-  | Some _ => expect before [] after
+  | Some x => expect before [] after &&
+              (* a deal refused for its limits really lies outside the configured limits *)
+              match x, o with
+              | ELimits, OBuy _ a cur => match find_rate (ts_rates st) DBuy cur with Some r => negb (in_limit r a) | None => true end
+              | ELimits, OBuyBack _ a cur => match find_rate (ts_rates st) DBack cur with Some r => negb (in_limit r a) | None => true end
+              | _, _ => true
+              end
   | None =>
     match o with
     | OTransfer s r a =>
